@@ -42,7 +42,15 @@ Heads == {A, <<"fail">>, <<"conde", << <<A>>, <<B>> >> >>, <<"fresh", <<>>, <<A>
 Rests == {<<>>, <<C>>, << <<"conde", << <<B>>, <<C>> >> >> >>, << <<"fail">> >>}
 Commit1(op) == {<<op, << <<h>> \o r >> >> : h \in Heads, r \in Rests}
 Commit2(op) == {<<op, << <<h1>> \o r1, <<h2>> \o r2 >> >> : h1 \in Heads, r1 \in Rests, h2 \in {A, <<"fail">>, <<"conde", << <<A>>, <<C>> >> >>}, r2 \in {<<>>, <<B>>}}
-CommitScope == Commit1("conda") \cup Commit1("condu") \cup Commit2("conda") \cup Commit2("condu")
+(* nested committed choice: an inner conda/condu as the only goal of a clause of an outer one (the outer
+   condu must still cut the inner goal down to its first answer) *)
+InnerC == {<<op, << <<h>> \o r >> >> : op \in {"conda", "condu"},
+             h \in {A, <<"conde", << <<A>>, <<B>> >> >>}, r \in {<<>>, << <<"conde", << <<B>>, <<C>> >> >> >>}}
+NestedCommit == {<<op, << <<h0>>, <<x>> >> >> : op \in {"conda", "condu"}, h0 \in {<<"fail">>, <<"fresh", <<>>, << <<"fail">> >> >>}, x \in InnerC}
+                \cup {<<op, << <<x>> >> >> : op \in {"conda", "condu"}, x \in InnerC}
+                \cup {<<"onceo", << <<x>> >> >> : x \in InnerC}
+                \cup {<<op, << <<x, C>>, <<B>> >> >> : op \in {"conda", "condu"}, x \in InnerC}
+CommitScope == NestedCommit \cup Commit1("conda") \cup Commit1("condu") \cup Commit2("conda") \cup Commit2("condu")
                \cup {<<"onceo", << <<h>> >> >> : h \in Heads}
                \cup {<<"conde", << <<x>>, <<B>> >> >> : x \in Commit1("condu")}
                \cup {<<"conj", << <<"conde", << <<A>>, <<B>> >> >>, x>> >> : x \in Commit1("conda")}
